@@ -13,6 +13,7 @@ Three parts:
     rules of the property statement (AT4: group bitmap if the record has one, else all groups for a single AC, else the
     start/count range; AT5: start/count range; AT5 zero zones: request echoes).
 """
+import core
 import importlib
 import json
 import logging
@@ -377,6 +378,8 @@ def tie(ctx, scripts, prop):
     res = pmap(_tie_one, jobs)
     first = {}
     for label, gen, ops, mm, reordered, aside in res:
+        if mm and str(mm.get("error", "")).startswith("Infra"):
+            raise core.Infra(mm["error"])                       # e.g. the driver binary vanished under a concurrent rebuild: exit 2, not a verdict
         ctx.count("tie:%d:%s:%s" % (gen, label, "differs" if mm else ("set-aside-scheduling-tie" if aside else "agrees")))
         if reordered:
             ctx.count("tie:%d:adv-ops-with-simultaneous-events-in-another-order" % gen, reordered)
